@@ -15,10 +15,17 @@ Repeated questions: for every maximal sequence of questions the specification's 
 (Container!Ask: "name" = DWARFInfo.parse_debugsupinfo(), "sup" = ELFFile.get_supplementary_dwarfinfo(dwarfinfo), "view" =
 the full dump of the object again) the driver opens the image afresh, loads once and asks in that order; every answer must
 be the one TLC wrote next to the question (a function of the configuration, whatever was asked before).
+Options: the cases of the families "rlink" (a relocatable carrier with one S + A relocation on .debug_info, opened directly or
+behind a link) and "chain" carry relocate_dwarf_sections in {True, False}; the driver passes it to get_dwarf_info next to
+follow_links.  With False the expected view is the stored (unrelocated) one - the specification's view of THAT unit and the
+dump of the plain, link-free object opened with the same option.  An unstripped file with a link names a file with another
+payload: its own data must be what is loaded.
 Metamorphic part: the same container transforms are applied harness-side to corpus files (section
 contents rewritten generically through the record layouts the specification exports; zlib levels
 0/1/6/9; SHF_COMPRESSED, .zdebug renaming, per-section mixtures of plain / SHF_COMPRESSED / .zdebug, stripping + .gnu_debuglink with right/wrong CRC,
-decompression of already compressed files, supplementary pairs through a loader); thorough adds
+decompression of already compressed files, supplementary pairs through a loader; an added .gnu_debuglink to an unrelated
+file on the unstripped file in each encoding; relocatable objects re-encoded / split and read with relocate_dwarf_sections=False
+against the plain object read the same way); thorough adds
 objcopy 2.40 as an independent transformer.  Dumps must equal the dump of the untouched file.
 
 Error classes (property text): CRC mismatch, bad declared size, unknown compression type ->
@@ -211,8 +218,9 @@ class Loader:
         return io.BytesIO(self.table[bytes(name)])
 
 
-def observe(main, table, use_loader, follow, want_dump=True):
-    """Open `main` and load its debugging information.  Returns a dict of observations; exceptions become values."""
+def observe(main, table, use_loader, follow, want_dump=True, reloc=True):
+    """Open `main` and load its debugging information (options follow_links = follow, relocate_dwarf_sections = reloc).
+    Returns a dict of observations; exceptions become values."""
     from elftools.elf.elffile import ELFFile
     obs = {}
     loader = Loader(table) if use_loader else None
@@ -231,7 +239,7 @@ def observe(main, table, use_loader, follow, want_dump=True):
         lk = _part(ef.get_dwarf_link)
         obs['link'] = None if lk is None else lk if isinstance(lk, str) else [bytes(lk.filename), lk.checksum]
         try:
-            di = ef.get_dwarf_info(follow_links=follow)
+            di = ef.get_dwarf_info(relocate_dwarf_sections=reloc, follow_links=follow)
             obs['dump'] = None
             if want_dump:
                 d = full_dump(di)
@@ -251,12 +259,12 @@ def observe(main, table, use_loader, follow, want_dump=True):
             try:
                 ef2 = ELFFile(io.BytesIO(main), stream_loader=Loader(table)) if use_loader else ELFFile(io.BytesIO(main))
                 try:
-                    ef2.get_dwarf_info(follow_links=not follow)
+                    ef2.get_dwarf_info(relocate_dwarf_sections=reloc, follow_links=not follow)
                 except core.CallTimeout:
                     raise
                 except Exception:
                     pass
-                d2 = full_dump(ef2.get_dwarf_info(follow_links=follow))
+                d2 = full_dump(ef2.get_dwarf_info(relocate_dwarf_sections=reloc, follow_links=follow))
                 if d2 != obs['dump']:
                     k = sorted(x for x in set(d2) | set(obs['dump']) if d2.get(x) != obs['dump'].get(x))
                     obs['history_dependent'] = k[:3]
@@ -359,9 +367,9 @@ def run_spec_cases(run, res, only_tag=None):
         elif k == 'view':
             views[_key(ln['refkey'])] = ln
         elif k == 'case':
-            cases[(_key(ln['img']), ln['loader'], ln['follow'])] = ln
+            cases[(_key(ln['img']), ln['loader'], ln['follow'], ln['reloc'])] = ln
         elif k == 'query':
-            queries[(_key(ln['img']), ln['loader'], ln['follow'], tuple(ln['qs']))] = ln
+            queries[(_key(ln['img']), ln['loader'], ln['follow'], ln['reloc'], tuple(ln['qs']))] = ln
     if layout is None or not cases:
         raise core.MachineryError('Container: no layout / cases emitted')
 
@@ -390,23 +398,24 @@ def run_spec_cases(run, res, only_tag=None):
     # references first: the plain encoding of every payload
     refs = {}
     built = {}
-    order = sorted(cases.values(), key=lambda c: (not c['isref'], c['fam'], str(c['img']), c['loader'], c['follow']))
+    order = sorted(cases.values(), key=lambda c: (not c['isref'], c['fam'], str(c['img']), c['loader'], c['follow'], c['reloc']))
     for case in order:
         main, table, crc = build(case)
         tag = _tag(case)
         if only_tag is not None and tag != only_tag and not case['isref']:
             continue
-        brief = {'cfg': {k: case[k] for k in ('fam', 'cls', 'le', 'ver', 'fmt', 'plan', 'dl', 'home', 'sup', 'supplan', 'loader', 'follow')},
+        brief = {'cfg': {k: case[k] for k in ('fam', 'cls', 'le', 'ver', 'fmt', 'plan', 'dl', 'home', 'sup', 'supplan', 'loader', 'follow',
+                                              'rel', 'reloc')},
                  'expect': case['outcome'], 'main_b64': core.b64(main), 'files_b64': {k.decode(): core.b64(v) for k, v in table.items()}}
-        nontrivial = case['plan'] not in ('plain', 'none') or case['dl'] != 'none' or case['sup'] != 'none'
-        run.count(_key([case['img'], case['loader'], case['follow']]), nontrivial=nontrivial,
+        nontrivial = case['plan'] not in ('plain', 'none') or case['dl'] != 'none' or case['sup'] != 'none' or case['rel'] != 'none'
+        run.count(_key([case['img'], case['loader'], case['follow'], case['reloc']]), nontrivial=nontrivial,
                   sample={'cfg': brief['cfg'], 'outcome': case['outcome'], 'suploaded': case['suploaded'], 'main_size': len(main),
                           'files': {k.decode(): len(v) for k, v in table.items()}} if nontrivial and run.evaluations % 211 == 5 else None)
 
         def bad(clause, exp, obs, **kw):
             run.mismatch(clause, tag, dict(brief, **kw), exp, obs)
         try:
-            o = observe(main, table, case['loader'], case['follow'])
+            o = observe(main, table, case['loader'], case['follow'], reloc=case['reloc'])
         except core.CallTimeout as ex:
             bad('timeout', 'an answer', str(ex))
             continue
@@ -456,7 +465,8 @@ def run_spec_cases(run, res, only_tag=None):
                 from elftools.elf.elffile import ELFFile
                 with core.guard(60):
                     try:
-                        di = ELFFile(io.BytesIO(main), stream_loader=Loader(table) if case['loader'] else None).get_dwarf_info(follow_links=case['follow'])
+                        di = ELFFile(io.BytesIO(main), stream_loader=Loader(table) if case['loader'] else None).get_dwarf_info(
+                            relocate_dwarf_sections=case['reloc'], follow_links=case['follow'])
                         check_view(di, v, bad)
                     except core.CallTimeout as ex:
                         bad('timeout', 'an answer', str(ex))
@@ -488,9 +498,9 @@ def run_spec_cases(run, res, only_tag=None):
         if ik not in built:
             built[ik] = build(q)
         main, table, _crc = built[ik]
-        brief = {'cfg': {k: q[k] for k in ('fam', 'plantag', 'dl', 'sup', 'loader', 'follow')}, 'questions': q['qs'],
+        brief = {'cfg': {k: q[k] for k in ('fam', 'plantag', 'dl', 'sup', 'loader', 'follow', 'reloc')}, 'questions': q['qs'],
                  'main_b64': core.b64(main), 'files_b64': {k.decode(): core.b64(v) for k, v in table.items()}}
-        run.count(_key([q['img'], q['loader'], q['follow'], q['qs']]), nontrivial=True,
+        run.count(_key([q['img'], q['loader'], q['follow'], q['reloc'], q['qs']]), nontrivial=True,
                   sample={'cfg': brief['cfg'], 'questions': q['qs'], 'answers': q['ans']} if run.evaluations % 499 == 7 else None)
         ref = refs.get(_key(q['refkey']))
         supref = refs.get(_key(q['suprefkey']))
@@ -502,8 +512,8 @@ def run_spec_cases(run, res, only_tag=None):
 
 
 def _tag(case):
-    return '%s:%s/plan=%s' % (case['fam'], case['sup'] if case['sup'] != 'none' else case['dl'] if case['dl'] != 'none' else 'nolink',
-                              case['plantag'])
+    return '%s:%s/plan=%s%s' % (case['fam'], case['sup'] if case['sup'] != 'none' else case['dl'] if case['dl'] != 'none' else 'nolink',
+                                case['plantag'], '' if case['reloc'] else '/norelocate')
 
 
 def ask(run, tag, brief, main, table, q, ref, supref):
@@ -512,7 +522,7 @@ def ask(run, tag, brief, main, table, q, ref, supref):
     with core.guard(120):
         try:
             ef = ELFFile(io.BytesIO(main), stream_loader=Loader(table)) if q['loader'] else ELFFile(io.BytesIO(main))
-            di = ef.get_dwarf_info(follow_links=q['follow'])
+            di = ef.get_dwarf_info(relocate_dwarf_sections=q['reloc'], follow_links=q['follow'])
         except core.CallTimeout:
             raise
         except Exception as ex:
@@ -741,6 +751,14 @@ def t_strip(data, layout, dbgname, crc):
     return rw.build()
 
 
+def t_addlink(data, layout, dbgname, crc):
+    """An UNSTRIPPED file that carries a .gnu_debuglink (objcopy --add-gnu-debuglink without stripping): every section stays,
+    the link record is added."""
+    rw = ElfRw(data, layout)
+    rw.add(bytes(layout['debuglink']), debuglink_record(dbgname, crc, rw.le), align=4)
+    return rw.build()
+
+
 def _has_rel_debug(data, layout):
     rw = ElfRw(data, layout)
     return any(n.startswith(b'.rela.debug_') or n.startswith(b'.rel.debug_') for n in rw.names)
@@ -809,9 +827,36 @@ def run_corpus(run, layout, files, levels, objcopy, only=None):
                 variants.append(('split.plain/crc-bad', t_strip(data, layout, name, crc ^ 1), t2, True, True, None, 'error:crc'))
                 variants.append(('split.plain/nofollow', t_strip(data, layout, name, crc), t2, True, False, None, 'nodwarf'))
                 variants.append(('split.plain/noloader', t_strip(data, layout, name, crc), {}, False, True, None, 'nodwarf'))
+        # own debug info (in each encoding) x link present: the link of an unstripped file names ANOTHER file (right CRC, loadable);
+        # the file's own data must be what is loaded
+        drel = UT + ('/dwarfv5_basic.elf' if not rel.endswith('/dwarfv5_basic.elf') else '/sample_exe64.elf')
+        dpath = os.path.join(core.REPO, drel)
+        if os.path.exists(dpath):
+            decoy = open(dpath, 'rb').read()
+            dname = b'other.debug'
+            t3 = dict(table)
+            t3[dname] = decoy
+            dcrc = binascii.crc32(decoy) & 0xffffffff
+            for dtag, own in (('plain', data), ('gabi', t_gabi(data, layout, 6)), ('zdebug', t_zdebug(data, layout, 6)),
+                              ('zdebug-smaller', t_zdebug(data, layout, 6, only_smaller=True))):
+                variants.append(('own+link.%s/crc-ok' % dtag, t_addlink(own, layout, dname, dcrc), t3, True, True, ref, 'all'))
+        # relocate_dwarf_sections = False on relocatable objects: the unrelocated view is the same under every encoding and
+        # through a link (8th field: the option)
+        if rel_debug:
+            ref_norel = observe(data, table, bool(sup), True, reloc=False).get('dump')
+            if ref_norel is not None:
+                variants.append(('gabi.norelocate/level6', t_gabi(data, layout, 6), table, bool(sup), True, ref_norel, 'all', False))
+                variants.append(('zdebug.norelocate/level6', t_zdebug(data, layout, 6), table, bool(sup), True, ref_norel, 'all', False))
+                crc = binascii.crc32(data) & 0xffffffff
+                name = (base + '.debug').encode()
+                t2 = dict(table)
+                t2[name] = data
+                variants.append(('split.norelocate/crc-ok', t_strip(data, layout, name, crc), t2, True, True, ref_norel, 'link', False))
         if objcopy:
             variants += _objcopy_variants(run, data, base, table, bool(sup), ref)
-        for ttag, main, tab, use_loader, follow, want, mode in variants:
+        for var in variants:
+            ttag, main, tab, use_loader, follow, want, mode = var[:7]
+            reloc = var[7] if len(var) > 7 else True
             if only is not None and (rel, ttag) not in only:
                 continue
             tag = '%s:%s' % (ttag.split('/')[0], kind)
@@ -819,7 +864,7 @@ def run_corpus(run, layout, files, levels, objcopy, only=None):
             run.count(_key([rel, ttag]), nontrivial=True,
                       sample={'file': rel, 'transform': ttag, 'size': len(main)} if run.evaluations % 97 == 3 else None)
             try:
-                o = observe(main, tab, use_loader, follow)
+                o = observe(main, tab, use_loader, follow, reloc=reloc)
             except core.CallTimeout as ex:
                 run.mismatch('corpus.timeout', tag, brief, 'an answer', str(ex))
                 continue
@@ -911,7 +956,8 @@ def check(run):
                 'multi-block/declared size too big/too small/bad type, .zdebug whole/multi-block/mixed/bad magic/size too big/too small/truncated; "mix": every '
                 'non-uniform assignment of plain/SHF_COMPRESSED/.zdebug to the four debug sections, .debug_sup against the rest) x class/byte order x DWARF '
                 'version/format x .eh_frame, link families (stripped+.gnu_debuglink right/wrong CRC, unstripped with link, .gnu_debugaltlink, '
-                '.debug_sup with is_supplementary 0/1, stripped->debug->supplementary chains) x encodings of every file x loader x follow_links; '
+                '.debug_sup with is_supplementary 0/1, stripped->debug->supplementary chains, relocatable carrier direct / behind a link) x encodings '
+                'of every file x loader x follow_links (x relocate_dwarf_sections in the chain and relocatable families); '
                 '(a2) every maximal sequence of repeated questions (supplementary file name / load it / walk the view again) to the loaded object of the link '
                 'configurations, answers computed by the machine; '
                 '(b) corpus file x harness-side transform (gABI / .zdebug at zlib levels, per-section mixtures, decompression, split + link, supplementary pairs'
